@@ -165,7 +165,7 @@ def gen(rng, i, tier):
         obj, calls = [], [huge_call(rng, labs, cheap=True)]
     elif tier != "quick" and i % 100 == 37:
         calls = calls[:rng.randint(0, 1)] + [huge_call(rng, labs)]
-    return {"obj": G.jraw(obj), "calls": calls, "touch": rng.choice([None, None, "refresh", "copy"])}
+    return {"obj": G.jraw(obj), "calls": calls, "touch": rng.choice([None, None, "refresh", "copy", "keep", "round"])}
 
 
 def observe(H, w):
@@ -183,14 +183,20 @@ def run_impl(case):
     import qubovert as qv
     H = qv.PCBO({k: C.num(v) for k, v in G.unjraw(case["obj"])})
     out = {"obs": [], "error": None, "checks": []}
+    by = C.Bystanders()
     for j, c in enumerate(case["calls"]):
         # maintenance between two constraints: nothing the next call relies on may be lost (only when no variable is stale,
         # because refresh / copy legitimately forget stale variables and the model run does not perform them)
         if j and case.get("touch") and H.variables == {i for k in H for i in k}:
             if case["touch"] == "refresh":
                 H.refresh()
-            else:
+            elif case["touch"] == "round":
+                H = round(H, 12)             # exact on the coefficients generated; constraints and ancillas stay
+            elif case["touch"] == "copy":
+                by.add(H, "the model a copy was taken from (after %d constraints)" % j)
                 H = H.copy()
+            else:                            # "keep": the history goes on with H, a copy of this moment stays behind
+                by.add(H.copy(), "a copy taken after %d constraints" % j)
         P = {k: C.num(v) for k, v in G.unjraw(c["P"])}
         snapP = C.snapshot(P)
         lam = C.num(F(*c["lam"]))
@@ -217,6 +223,7 @@ def run_impl(case):
                 w = "always"
         out["obs"].append(observe(H, w))
         out["checks"].extend(check_constraint(H, before, anc_before, c, w))
+    out["checks"].extend(by.changed())
     return out
 
 
